@@ -217,6 +217,7 @@ class Scenario:
             if self.side == "client": self.peer.step()          # the client speaks first
             self.step(["S1"], w.start)
         n_do = 0
+        self.n_injected = 0
         for op in case["ops"]:
             k = op[0]
             if k == "hs":
@@ -245,10 +246,12 @@ class Scenario:
                 self.do_payload[n] = d
                 if self.tl.tunnel_state.name != "OPEN" and self.tl.command_to_reply_to is not None:
                     self.premature_send = True       # delivered to the child at once (not queued): it writes before the tunnel is open
+                self.n_injected += 1
                 self.step(["O%d" % n], lambda d=d, n=n: w.inject(self.Do([commands.SendData(self.conn, d)], n)))
             elif k == "ot":
                 n = n_do; n_do += 1
                 self.child_rules["o%d" % n] = "-"
+                self.n_injected += 1
                 self.step(["O%d" % n], lambda n=n: w.inject(self.Do([], n)))
             elif k == "pc":
                 if not self.peer.done: self.deliver([], hold=False)
@@ -275,6 +278,7 @@ class Scenario:
             elif k == "cx":
                 n = n_do; n_do += 1
                 self.child_rules["o%d" % n] = "x"
+                self.n_injected += 1
                 self.step(["O%d" % n], lambda n=n: w.inject(self.Do([commands.CloseConnection(self.conn)], n)))
                 break
         self.deliver([], hold=False) if case.get("flush", True) and self.conn in w.transports and (self.conn.state & ConnectionState.CAN_READ) else None
@@ -326,7 +330,15 @@ class Check(PropertyCheck):
                   "Layer.handle_event's pause/replay (C04): hooks and OpenConnection are answered before the next event; the reply to OpenConnection is only "
                   "considered while command_to_reply_to is set; a second start_tls is the real code's `assert not self.tls`. Not modelled: ignore_connection, "
                   "ServerTLSLayer.wait_for_clienthello hand-over, DTLS. TLS 1.3 only in the differential run. The harness replays EOF / data after a close_notify "
-                  "directly (world.py declines once the TLS layer cleared CAN_READ, proxy/server.py's reader does not).")
+                  "directly (world.py declines once the TLS layer cleared CAN_READ, proxy/server.py's reader does not). "
+                  "ORACLE AUDIT — excused / not demanded, each exercised by known_selftest(): (a) premature_send (server side, child writes before its "
+                  "OpenConnection is answered): only the outbound clauses and a WantReadError/SSL Error of sendall are excused, the inbound and close clauses "
+                  "are not; the model tie is skipped for it; (b) Skip(): the PEER's output does not split into whole TLS records, a peer write/close_notify is not "
+                  "exactly one record, the peer cannot write — all facts about the in-memory peer, not the layer; (c) pw/pc ops are dropped while the peer's own "
+                  "handshake is not done — compensated by the input-derived clause 'all flights delivered => handshake completes'; (d) Log commands and hooks "
+                  "other than tls_* are not compared; (e) non-TLS1.3 sessions have no model tie. Expected values come from the case (peer writes, child payloads, "
+                  "injected events), the layer-vs-layer comparison peer_plain == child_sends is kept only as a consistency check. The model line uses the re-framed "
+                  "peer ciphertext and the ConnectionClosed events the world delivers in answer to CloseConnection (environment reactions), never layer state.")
     technique = "Lean 4 proof (model of the tunnel/TLS layers, parametric in a lawful codec; inductive invariant over all event histories; induction over the recv/bio_read loops and the event queue) + real-OpenSSL scenario correspondence"
     rule = ("scenario = side (ClientTLSLayer / ServerTLSLayer opened by the child / ServerTLSLayer on an open connection) x handshake flights cut into "
             "segments (incl. tail held back so application data follows Finished in one segment) x peer writes of record sizes 1..16384 cut anywhere "
@@ -398,21 +410,49 @@ class Check(PropertyCheck):
                 "expect_child_hex": hx(plain_in), "expect_close": closed, "child_sends_hex": hx(bytes(sc.child_sends)),
                 "peer_plain_hex": hx(bytes(sc.peer.plain)), "peer_done": sc.peer.done, "peer_failed": sc.peer.failed,
                 "hello_len": sc.hello_len, "child_rules": sc.child_rules, "premature_send": sc.premature_send,
+                "cs_payloads_hex": [hx(sc.do_payload[n]) for n in sorted(sc.do_payload)], "n_injected": sc.n_injected,
                 "version": sc.peer.c.get_protocol_version_name() if sc.peer.done else None}
+
+    @staticmethod
+    def hs_expected(case):
+        """from the case alone: is a complete handshake delivered to the layer (and nothing hostile before it)?"""
+        ops = case["ops"]
+        i = next((k for k, op in enumerate(ops) if op[0] == "hs"), None)
+        if i is None or any(op[0] in ("junk", "tc", "cx") for op in ops[:i]): return False
+        if ops[i][2]:                                    # tail held back: the next op that delivers bytes completes it
+            for op in ops[i + 1:]:
+                if op[0] in ("pw", "pc", "tc", "junk"): return True
+                if op[0] == "cx": return False
+        return True
 
     def oracle(self, case, obs):
         fails = []
-        if obs["premature_send"]: return []          # a child that writes before the tunnel is open is outside the statement
-        if obs["errors"]: fails.append("layer raised: " + obs["errors"][0])
-        ctoks = [t for _, o in obs["steps"] for t in o.split(";")[0][2:].split("+") if t != "-"]
+        premature = obs["premature_send"]
+        # excused, and only this: a child that writes before its OpenConnection was answered makes sendall raise (WantReadError) —
+        # outside the statement ("after mitmproxy completes TLS"); everything about the inbound direction is still demanded
+        errs = [e for e in obs["errors"] if not (premature and e.startswith(("WantReadError", "Error")))]
+        if errs: fails.append("layer raised: " + errs[0])
+        ctoks = [t for o in (o for _, o in obs["steps"]) for t in o.split(";")[0][2:].split("+") if t != "-"]
+        utoks = [t for o in (o for _, o in obs["steps"]) for t in o.split(";")[1][2:].split("+") if t != "-"]
         got = b"".join(unhx(t[1:]) for t in ctoks if t.startswith("d"))
         # "every application byte the client sends reaches the inner protocol layer exactly once and in order ...
-        #  regardless of how TLS records and TCP segments are split"
+        #  regardless of how TLS records and TCP segments are split"   (expected value: what the harness made the peer write)
         if got != unhx(obs["expect_child_hex"]):
             fails.append(f"child received {len(got)} bytes, the peer's fully delivered records carry {len(unhx(obs['expect_child_hex']))} (or content differs)")
-        # "every byte the inner layer sends reaches the client"
-        if obs["peer_done"] and unhx(obs["peer_plain_hex"]) != unhx(obs["child_sends_hex"]):
-            fails.append("peer decrypted something else than what the child sent")
+        expected_hs = self.hs_expected(case) and not premature
+        if expected_hs:
+            # "After mitmproxy completes TLS ..." — with a well-behaved peer and all flights delivered it has to complete
+            if not obs["peer_done"] or "H2" not in utoks: fails.append("all handshake flights were delivered but the handshake did not complete")
+            # every event for the child (stored during the handshake or not) reaches it exactly once, in injection order
+            os_ = [t for t in ctoks if t.startswith("o") and t[1:].isdigit()]
+            if os_ != ["o%d" % k for k in range(obs["n_injected"])]:
+                fails.append(f"events injected for the child: {obs['n_injected']} in order, handled: {os_}")
+            # "every byte the inner layer sends reaches the client"   (expected value: the payloads the harness made the child send)
+            want = b"".join(unhx(h) for h in obs["cs_payloads_hex"])
+            if unhx(obs["peer_plain_hex"]) != want:
+                fails.append(f"peer decrypted {len(unhx(obs['peer_plain_hex']))} bytes, the child was made to send {len(want)} (or content differs)")
+        if not premature and obs["peer_done"] and unhx(obs["peer_plain_hex"]) != unhx(obs["child_sends_hex"]):
+            fails.append("peer decrypted something else than what the child sent")        # consistency (both sides observed)
         # "A close_notify from a peer is delivered as a connection close after all preceding data."
         if obs["expect_close"]:
             if "cl" not in ctoks: fails.append("close_notify was delivered but the child got no ConnectionClosed")
@@ -420,6 +460,47 @@ class Check(PropertyCheck):
                 before = b"".join(unhx(t[1:]) for t in ctoks[:ctoks.index("cl")] if t.startswith("d"))
                 if before != unhx(obs["expect_child_hex"]): fails.append("ConnectionClosed reached the child before all preceding data")
         return fails
+
+    def known_selftest(self):
+        """doctored observations just outside every excused class must be rejected (independent of the tree under test)"""
+        case = {"side": "client", "ops": [["hs", [[], []], 0], ["pw", [3], [], 0], ["cs", 2], ["pc", []]]}
+        good = {"steps": [[["S1"], "c:-;u:-"], [["D00"], "c:-;u:H1+H0"], [["D00"], "c:st;u:H2"], [["D00"], "c:d010203;u:-"],
+                          [["O0"], "c:o0;u:Paabb"], [["D00"], "c:cl;u:-"]],
+                "errors": [], "expect_child_hex": "010203", "expect_close": True, "child_sends_hex": "aabb", "peer_plain_hex": "aabb",
+                "peer_done": True, "premature_send": False, "cs_payloads_hex": ["aabb"], "n_injected": 1}
+        def doctored(**kw):
+            o = json.loads(json.dumps(good)); o.update(kw); return o
+        def steps(i, text):
+            st = json.loads(json.dumps(good["steps"])); st[i][1] = text; return st
+        checks = [
+            (case, good, False),
+            (case, doctored(steps=steps(3, "c:d0102;u:-")), True),                      # a byte lost
+            (case, doctored(steps=steps(3, "c:d010203+d03;u:-")), True),                # a byte twice
+            (case, doctored(steps=steps(3, "c:d010302;u:-")), True),                    # reordered
+            (case, doctored(steps=steps(5, "c:-;u:-")), True),                          # close_notify swallowed
+            (case, doctored(steps=steps(3, "c:cl+d010203;u:-")), True),                 # close before data
+            (case, doctored(peer_plain_hex="aa"), True),                                # peer misses a byte
+            (case, doctored(peer_plain_hex="aa", child_sends_hex="aa"), True),          # ... even if the layer's own bookkeeping agrees
+            (case, doctored(steps=steps(4, "c:-;u:-"), peer_plain_hex="-", child_sends_hex="-"), True),   # stored/injected event never reached the child
+            (case, doctored(steps=steps(2, "c:st;u:-"), peer_done=False), True),        # handshake never completes
+            (case, doctored(errors=["AssertionError: x"]), True),
+            # premature write: only the outbound clauses and the sendall exception are excused
+            (case, doctored(premature_send=True, errors=["WantReadError: "], peer_plain_hex="-"), False),
+            (case, doctored(premature_send=True, errors=["WantReadError: "], steps=steps(3, "c:d0102;u:-")), True),
+            (case, doctored(premature_send=True, errors=["KeyError: x"]), True),
+            # no handshake expected (junk first): nothing about completion is demanded, the inbound clause still is
+            ({"side": "client", "ops": [["junk"], ["hs", [[], []], 0]]}, doctored(steps=[[["S1"], "c:-;u:-"]], expect_child_hex="-", expect_close=False,
+                                                                                    peer_done=False, peer_plain_hex="-", child_sends_hex="-", cs_payloads_hex=[], n_injected=0), False),
+            ({"side": "client", "ops": [["junk"], ["hs", [[], []], 0]]}, doctored(steps=[[["S1"], "c:d01;u:-"]], expect_child_hex="-", expect_close=False,
+                                                                                    peer_done=False, peer_plain_hex="-", child_sends_hex="-", cs_payloads_hex=[], n_injected=0), True),
+        ]
+        for c, o, want_fail in checks:
+            got = bool(self.oracle(c, o))
+            assert got == want_fail, f"C14 oracle selftest: expected {'a failure' if want_fail else 'no failure'} for {json.dumps(o)[:300]}: {self.oracle(c, o)}"
+        assert self.hs_expected({"ops": [["hs", [[]], 1], ["cs", 1], ["cx"]]}) is False and self.hs_expected({"ops": [["ot"], ["hs", [[]], 1], ["cs", 1]]}) is True
+
+    def setup(self, tier):
+        self.known_selftest()
 
     # ---- model tie ----------------------------------------------------------------------------------------------
     def model_lines(self, case):
